@@ -13,7 +13,7 @@ for d in sorted(Path(__file__).resolve().parent.parent.joinpath("seeded").iterdi
     status = "caught" if caught_by else "NOT caught"
     if first.startswith("MISSED"):
         status = "caught after strengthening"
-    elif first.startswith("not observable"):
+    elif first.startswith("not observable"):  # reported by another property's check
         status = f"caught by {','.join(caught_by)} (cross-property)"
     rows.append((m.get("property"), d.name, str(m.get("title", ""))[:90], str(m.get("needs", ""))[:110].replace("\n", " "), status, ", ".join(caught_by), "; ".join(keys)[:120]))
 print("| property | seeded change | needs to manifest | result (quick tier) | reporting check: violation keys |")
